@@ -172,7 +172,7 @@ func runC06(c *Ctx, steps []c06step, cfg SimCfg, polSeed int64, crashAt int, sid
 func init() {
 	register(&Family{
 		Name:  "c06.crash",
-		Props: map[string][2]int{"C06": {32, 640}, "C05": {2, 32}, "C01": {2, 32}, "C08": {2, 32}},
+		Props: map[string][2]int{"C06": {32, 640}, "C05": {32, 320}, "C01": {4, 64}, "C08": {6, 100}},
 		Run: func(c *Ctx) {
 			r := c.R
 			steps := c06workload(r)
